@@ -140,8 +140,10 @@ def run_batch(seed, batch, tier):
             mode, detail = bad
 
             def fails(c, _m=mode):
+                # candidates in which a trigger monitor fires are executions the check does not judge (see C01)
+                monitors.OBS.reset_case()
                 r = compare_case(c, modes=(_m,))
-                return r.get(_m, ("", ""))[0] == "mismatch"
+                return r.get(_m, ("", ""))[0] == "mismatch" and not (set(monitors.OBS.triggers) - {"sql_zero_using"})
 
             small = diff.shrink(case, fails)
             r2 = compare_case(small, modes=(mode,))
